@@ -781,7 +781,8 @@ Lemma sv_method ctx a x name args ns s :
   ev_list ctx args s1 (fun vs s2 =>
   match ns, v with
   | true, VNil => Done VNil s2
-  | _, _ => lift (aloc a) s2 (Prim.fetch_fn fe v name) (fun id => do_call fe (aloc a) false id v vs s2)
+  | _, _ => if ns && Prim.fetch_fn_zero v name then Done VNil s2
+            else lift (aloc a) s2 (Prim.fetch_fn fe v name) (fun id => do_call fe (aloc a) false id v vs s2)
   end)).
 Proof. reflexivity. Qed.
 
@@ -1983,7 +1984,7 @@ Proof.
   assert (G : res_ok o (ev_list fe cfg env ctx args' s1
                 (fun vs s2 => do_call fe (aloc a) false id (VStruct sn' p fields) vs s2))).
   { eapply finish_call; eauto. discriminate. }
-  destruct ns; rewrite Ef; exact G.
+  destruct ns; cbn [andb Prim.fetch_fn_zero]; rewrite Ef; exact G.
 Qed.
 
 (* ---- all node kinds together ---- *)
